@@ -26,6 +26,11 @@ GHOST uint64_t GL;
 #else
 #define COLMAX RS
 #endif
+#ifdef NCONC
+#define TABLE_OK(t) ((t)->m == NCONC / 2)
+#else
+#define TABLE_OK(t) (__CPROVER_is_fresh(t, sizeof(*(t))) && (t)->m >= 1 && (t)->m <= MAXN / 2)
+#endif
 // ---- assumed callee frames
 void reim4_extract_1blk_from_contiguous_reim_ref__c(uint64_t m, uint64_t nrows, uint64_t blk, double* const dst, const double* const src)
 __CPROVER_requires(4 <= m && m <= MAXN / 2 && blk < (m >> 2) && nrows <= 8)
@@ -46,28 +51,44 @@ __CPROVER_requires(4 <= m && m <= MAXN / 2 && blk < (m >> 2))
 __CPROVER_requires(__CPROVER_is_fresh(dst, 64) && __CPROVER_is_fresh(src, m * 16))
 __CPROVER_assigns(__CPROVER_object_upto(dst, 64));
 void reim_fftvec_mul__c(const REIM_FFTVEC_MUL_PRECOMP* tables, double* r, const double* a, const double* b)
-__CPROVER_requires(__CPROVER_is_fresh(tables, sizeof(*tables)) && tables->m >= 1 && tables->m <= MAXN / 2)
+__CPROVER_requires(TABLE_OK(tables))
 __CPROVER_requires(__CPROVER_is_fresh(r, tables->m * 16) && __CPROVER_is_fresh(a, tables->m * 16) && __CPROVER_is_fresh(b, tables->m * 16))
 __CPROVER_assigns(__CPROVER_object_upto(r, tables->m * 16));
 void reim_fftvec_addmul__c(const REIM_FFTVEC_ADDMUL_PRECOMP* tables, double* r, const double* a, const double* b)
-__CPROVER_requires(__CPROVER_is_fresh(tables, sizeof(*tables)) && tables->m >= 1 && tables->m <= MAXN / 2)
+__CPROVER_requires(TABLE_OK(tables))
 __CPROVER_requires(__CPROVER_is_fresh(r, tables->m * 16) && __CPROVER_is_fresh(a, tables->m * 16) && __CPROVER_is_fresh(b, tables->m * 16))
 __CPROVER_assigns(__CPROVER_object_upto(r, tables->m * 16));
 void reim_from_znx64__c(const REIM_FROM_ZNX64_PRECOMP* tables, void* r, const int64_t* a)
-__CPROVER_requires(__CPROVER_is_fresh(tables, sizeof(*tables)) && tables->m >= 1 && tables->m <= MAXN / 2)
+__CPROVER_requires(TABLE_OK(tables))
 __CPROVER_requires(__CPROVER_is_fresh(r, tables->m * 16) && __CPROVER_is_fresh(a, tables->m * 16))
 __CPROVER_assigns(__CPROVER_object_upto(r, tables->m * 16));
 void reim_fft__c(const REIM_FFT_PRECOMP* tables, double* data)
-__CPROVER_requires(__CPROVER_is_fresh(tables, sizeof(*tables)) && tables->m >= 1 && tables->m <= MAXN / 2)
+__CPROVER_requires(TABLE_OK(tables))
 __CPROVER_requires(__CPROVER_is_fresh(data, tables->m * 16))
 __CPROVER_assigns(__CPROVER_object_upto(data, tables->m * 16));
 
-#if NBIG
+#ifdef NCONC
+#define REQ_N (NN == NCONC)   /* bounded stand-in: concrete ring dimension (all strides concrete), see jobs_vec.vmp_jobs */
+#elif NBIG
 #define REQ_N (8 <= NN && NN <= MAXN)
 #else
 #define REQ_N (2 <= NN && NN <= 4)
 #endif
-#define WF_VMP (__CPROVER_is_fresh(module, sizeof(MODULE)) && REQ_N && IS_POW2(NN) && MH == NN / 2 \
+#ifdef NCONC
+// concrete mode: the harness builds the module and its four tables as concrete objects (constant nn, m), so that every stride
+// is a constant for the symbolic executor; the contract only restates what the harness built
+static MODULE GM; static REIM_FROM_ZNX64_PRECOMP GT_CONV; static REIM_FFT_PRECOMP GT_FFT; static REIM_FFTVEC_MUL_PRECOMP GT_MUL; static REIM_FFTVEC_ADDMUL_PRECOMP GT_ADDMUL;
+static const MODULE* concrete_module(void) {
+  GM.nn = NCONC; GM.m = NCONC / 2;
+  GT_CONV.m = NCONC / 2; GT_FFT.m = NCONC / 2; GT_MUL.m = NCONC / 2; GT_ADDMUL.m = NCONC / 2;
+  GM.mod.fft64.p_conv = &GT_CONV; GM.mod.fft64.p_fft = &GT_FFT; GM.mod.fft64.mul_fft = &GT_MUL; GM.mod.fft64.p_addmul = &GT_ADDMUL;
+  return &GM;
+}
+#define WF_VMP (module == &GM && NN == NCONC && MH == NCONC / 2)
+#else
+#define WF_VMP WF_VMP_SYM
+#endif
+#define WF_VMP_SYM (__CPROVER_is_fresh(module, sizeof(MODULE)) && REQ_N && IS_POW2(NN) && MH == NN / 2 \
   && __CPROVER_is_fresh(module->mod.fft64.p_conv, sizeof(REIM_FROM_ZNX64_PRECOMP)) && module->mod.fft64.p_conv->m == MH \
   && __CPROVER_is_fresh(module->mod.fft64.p_fft, sizeof(REIM_FFT_PRECOMP)) && module->mod.fft64.p_fft->m == MH \
   && __CPROVER_is_fresh(module->mod.fft64.mul_fft, sizeof(REIM_FFTVEC_MUL_PRECOMP)) && module->mod.fft64.mul_fft->m == MH \
@@ -78,6 +99,11 @@ __CPROVER_assigns(__CPROVER_object_upto(data, tables->m * 16));
 #else
 #define ENS_ZERO_COLS 1
 #endif
+#if ROWMAX == 0 && COLMAX > 0
+#define ENS_EMPTY_PRODUCT (GL >= COLMAX || BITS(res, GL * NN + G) == 0)
+#else
+#define ENS_EMPTY_PRODUCT 1
+#endif
 // scratch: exactly fft64_vmp_apply_dft_to_dft_tmp_bytes = 128 + 64*row_max bytes
 void vmp_apply_dft_to_dft__c(const MODULE* module, VEC_ZNX_DFT* res, const uint64_t res_size, const VEC_ZNX_DFT* a_dft, uint64_t a_size,
                              const VMP_PMAT* pmat, const uint64_t nrows, const uint64_t ncols, uint8_t* tmp_space)
@@ -86,6 +112,7 @@ __CPROVER_requires(__CPROVER_is_fresh(res, RS * NN * 8) && __CPROVER_is_fresh(a_
 __CPROVER_requires(__CPROVER_is_fresh(tmp_space, 128 + 64 * ROWMAX))
 __CPROVER_assigns(__CPROVER_object_upto(res, RS * NN * 8), __CPROVER_object_upto(tmp_space, 128 + 64 * ROWMAX))
 __CPROVER_ensures(ENS_ZERO_COLS) /*@vmp_columns_beyond_matrix_are_zero:C11,C18,C15*/
+__CPROVER_ensures(ENS_EMPTY_PRODUCT) /*@vmp_product_with_zero_usable_rows_is_zero_not_scratch_garbage:C11,C15*/
 ;
 // prepare: scratch exactly fft64_vmp_prepare_contiguous_tmp_bytes = N*8 bytes; output exactly bytes_of_vmp_pmat
 void vmp_prepare_contiguous__c(const MODULE* module, VMP_PMAT* pmat, const int64_t* mat, uint64_t nrows, uint64_t ncols, uint8_t* tmp_space)
@@ -94,14 +121,20 @@ __CPROVER_requires(__CPROVER_is_fresh(pmat, NR * NC * NN * 8) && __CPROVER_is_fr
 __CPROVER_assigns(__CPROVER_object_upto(pmat, NR * NC * NN * 8), __CPROVER_object_upto(tmp_space, NN * 8))
 ;
 void h_vmp_apply_dft_to_dft(void) {
-  const MODULE* m; VEC_ZNX_DFT* r; const VEC_ZNX_DFT* a; const VMP_PMAT* p; uint64_t rs, as, nr, nc; uint8_t* t;
+  const MODULE* m; VEC_ZNX_DFT* r; const VEC_ZNX_DFT* a; const VMP_PMAT* p; uint64_t rs = RS, as = AS, nr = NR, nc = NC; uint8_t* t;
   G = nondet_u64(); GL = nondet_u64();
+#ifdef NCONC
+  m = concrete_module();
+#endif
   fft64_vmp_apply_dft_to_dft_ref(m, r, rs, a, as, p, nr, nc, t);
   VACUITY_CANARY();
 }
 void h_vmp_prepare(void) {
-  const MODULE* m; VMP_PMAT* p; const int64_t* mat; uint64_t nr, nc; uint8_t* t;
+  const MODULE* m; VMP_PMAT* p; const int64_t* mat; uint64_t nr = NR, nc = NC; uint8_t* t;
   G = nondet_u64(); GL = nondet_u64();
+#ifdef NCONC
+  m = concrete_module();
+#endif
   fft64_vmp_prepare_contiguous_ref(m, p, mat, nr, nc, t);
   VACUITY_CANARY();
 }
